@@ -271,6 +271,36 @@ def storage_iface(ctx, rr):
     rr.info.update({'protocol_sites': n_proto, 'facade_sites': n_facade})
 
 
+def position_var(ctx, r):
+    """(name of the variable that holds the block to read, cursor attributes it defaults to, is the default taken exactly when no
+    block is given).  Two spellings: the parameter itself re-bound under `block is None`, or a local bound to the cursor under
+    `block is None` and to the parameter otherwise (`start = self.cursor if block is None else block`)"""
+    P = ctx.P
+    p = r.call_params[0] if r.call_params else None
+    gf = guard_facts(ctx, r)
+    cur_attrs, ok, pos = set(), False, p
+    none_t = lambda facts: any((f[0] == 'T' and f[1] == '%s is None' % p) or (f[0] == 'F' and f[1] == '%s is not None' % p) for f in facts)
+    none_f = lambda facts: any((f[0] == 'F' and f[1] == '%s is None' % p) or (f[0] == 'T' and f[1] == '%s is not None' % p) for f in facts)
+    by_name = {}
+    for a in P.own(r, ast.Assign):
+        for t in a.targets:
+            if isinstance(t, ast.Name):
+                by_name.setdefault(t.id, []).append(a)
+    for nm, defs in by_name.items():
+        if nm == p:
+            for a in defs:
+                if self_attr(a.value) and none_t(gf.facts_at(a.value) or set()):
+                    ok = True
+                    cur_attrs.add(self_attr(a.value))
+        elif len(defs) == 2:
+            cur = [a for a in defs if self_attr(a.value) and none_t(gf.facts_at(a.value) or set())]
+            oth = [a for a in defs if isinstance(a.value, ast.Name) and a.value.id == p and none_f(gf.facts_at(a.value) or set())]
+            if len(cur) == 1 and len(oth) == 1:
+                ok, pos = True, nm
+                cur_attrs.add(self_attr(cur[0].value))
+    return pos, cur_attrs, ok
+
+
 def _cursor_protocol(ctx, cls, r):
     P = ctx.P
     src = {ast.unparse(s).replace(' ', '') for s in ast.walk(r.node) if isinstance(s, ast.stmt)}
@@ -287,19 +317,10 @@ def _cursor_protocol(ctx, cls, r):
             ok = ok and ast.unparse(seeks[0].args[0]) == p and ast.unparse(reads[0].args[0]).replace(' ', '') == 'self.block_size'
         return ok, 'file flavour: seek(block) only when a block is given, then read block_size bytes at the file position'
     # cursor flavour: block defaults to the stored cursor; the cursor is advanced to block + block_size on every path
-    gf = guard_facts(ctx, r)
-    cur_attrs = set()
-    default_ok = False
-    for a in P.own(r, ast.Assign):
-        for t in a.targets:
-            if isinstance(t, ast.Name) and t.id == p and self_attr(a.value):
-                facts = gf.facts_at(a.value) or set()
-                if any(f[0] == 'T' and f[1] == '%s is None' % p for f in facts):
-                    default_ok = True
-                    cur_attrs.add(self_attr(a.value))
+    pos, cur_attrs, default_ok = position_var(ctx, r)
     adv = [a for a in P.own(r, ast.Assign) if any(self_attr(t) in cur_attrs for t in a.targets)]
     from ..dataflow import rtext
-    adv_ok = bool(adv) and all(rtext(P, r, a.value) in ('%s+self.block_size' % p, 'self.block_size+%s' % p) for a in adv)
+    adv_ok = bool(adv) and all(rtext(P, r, a.value, keep=(pos,)) in ('%s+self.block_size' % pos, 'self.block_size+%s' % pos) for a in adv)
     # the advance dominates every return
     g = ctx.cfg(r)
     from ..cfg import solve_forward
